@@ -470,16 +470,19 @@ func (m *repoManager) putCaches() error {
 		return nil
 	}
 	m.idMutex.RLock()
+	defer m.idMutex.RUnlock()
+	return m.putCachesLocked()
+}
+
+// putCachesLocked persists the id maps; the caller holds idMutex.
+func (m *repoManager) putCachesLocked() error {
+	if m.readOnly {
+		return nil
+	}
 	if err := m.putData(repoToUUIDKey, m.repoToUUID); err != nil {
-		m.idMutex.RUnlock()
 		return err
 	}
-	if err := m.putData(versionToUUIDKey, m.versionToUUID); err != nil {
-		m.idMutex.RUnlock()
-		return err
-	}
-	m.idMutex.RUnlock()
-	return nil
+	return m.putData(versionToUUIDKey, m.versionToUUID)
 }
 
 func (m *repoManager) loadVersion0() error {
@@ -849,10 +852,12 @@ func (m *repoManager) newInstanceID() (dvid.InstanceID, error) {
 }
 
 func (m *repoManager) newRepoID() (dvid.RepoID, error) {
+	// The new counter is persisted under the lock: were it written after unlocking, two concurrent
+	// allocations could store their counters out of order and a restart would issue an id again.
 	m.idMutex.Lock()
+	defer m.idMutex.Unlock()
 	curid := m.repoID
 	m.repoID++
-	m.idMutex.Unlock()
 	return curid, m.putNewIDs()
 }
 
@@ -870,15 +875,13 @@ func (m *repoManager) newVersionID(uuid dvid.UUID, save bool) (dvid.VersionID, e
 	m.idMutex.Lock()
 	curid := m.versionID
 	m.versionID++
+	defer m.idMutex.Unlock() // persist under the lock so that concurrent allocations cannot store out of order
 	if save {
 		m.versionToUUID[curid] = uuid
 		m.uuidToVersion[uuid] = curid
-		m.idMutex.Unlock()
-		if err := m.putCaches(); err != nil {
+		if err := m.putCachesLocked(); err != nil {
 			return curid, err
 		}
-	} else {
-		m.idMutex.Unlock()
 	}
 	return curid, m.putNewIDs()
 }
@@ -903,9 +906,9 @@ func (m *repoManager) newUUID(assign *dvid.UUID) (dvid.UUID, dvid.VersionID, err
 	m.versionToUUID[curid] = uuid
 	m.uuidToVersion[uuid] = curid
 	m.versionID++
-	m.idMutex.Unlock()
+	defer m.idMutex.Unlock() // persist under the lock so that concurrent allocations cannot store out of order
 
-	if err := m.putCaches(); err != nil {
+	if err := m.putCachesLocked(); err != nil {
 		return uuid, curid, err
 	}
 	return uuid, curid, m.putNewIDs()
